@@ -115,7 +115,7 @@ PATTERNS = [r"^CALL\b", r"^CREATE\s+STAGE", r"^PUT\s", r"^ALTER\s+SESSION", r"^G
             # unanchored patterns still only match at the start of the statement
             r"CALL", r"GRANT\s", r"STAGE", r"AUDIT", r"delete", r"T1", r"(?:PUT|GET)\s",
             # patterns with groups of their own: a backreference counts within its own pattern
-            r"^(CALL|PUT)\b", r"COPY (\w+) TO \1_BAK", r"^(RE)?GRANT\b", r"SELECT (['\"])nop\1"]
+            r"^(CALL|PUT)\b", r"COMMENT ON TABLE (\w+) IS '\1_BAK'", r"^(RE)?GRANT\b", r"SELECT (['\"])nop\1"]
 NOP_STMTS = [
     "CALL my_proc(1)", "call my_proc('x')", "CREATE STAGE s1", "create   stage s2 url='s3://x'", "PUT file:///tmp/x @s1", "ALTER SESSION SET X = 1",
     "GRANT ALL ON T1 TO ROLE r", "TRUNCATE TABLE T1", "truncate table T1", "INSERT INTO AUDIT VALUES (1)", "INSERT INTO T1 VALUES (5, 'five')",
@@ -123,7 +123,7 @@ NOP_STMTS = [
     "DELETE FROM T1 WHERE ID = 1", "UPDATE T1 SET S = 'CALL' WHERE ID = 1", "COPY INTO T1 FROM @s1", "CREATE TABLE STAGE_T (ID INT)", "SELECT 'GRANT' AS X",
     "DROP TABLE T1", "INSERT INTO T1 VALUES (%s, %s)", "INSERT INTO AUDIT VALUES (%s)",
     "SELECT 'please call me' AS X", "SELECT ID AS recall FROM T1 ORDER BY ID", "  call spaced()", "SELECT 'GRANT x' AS G", "INSERT INTO T1 VALUES (9, 'STAGE')",
-    "COPY T1 TO T1_BAK", "copy audit to audit_bak", "COPY T1 TO T2_BAK", "SELECT 'nop' AS Q", "UPDATE T1 SET S = 'AUDIT' WHERE ID = 2", "COMMENT ON TABLE T1 IS 'CALL me'", "ALTER TABLE T1 SET COMMENT = 'GRANT'", "CALL after_comment()", "SELECT COUNT(*) FROM T1", "GRANT SELECT ON T1 TO ROLE r", "delete from T1 where id = 2", "SELECT 'delete' AS D",
+    "COMMENT ON TABLE T1 IS 'T1_BAK'", "comment on table audit is 'audit_BAK'", "COMMENT ON TABLE T1 IS 'T2_BAK'", "SELECT 'nop' AS Q", "UPDATE T1 SET S = 'AUDIT' WHERE ID = 2", "COMMENT ON TABLE T1 IS 'CALL me'", "ALTER TABLE T1 SET COMMENT = 'GRANT'", "CALL after_comment()", "SELECT COUNT(*) FROM T1", "GRANT SELECT ON T1 TO ROLE r", "delete from T1 where id = 2", "SELECT 'delete' AS D",
 ]
 
 
@@ -134,8 +134,8 @@ SYNTAX_ERRORS = ["SELEC 1", "SELECT 1 +", "INSERT INTO T1 VALUES (1,", "SELECT F
 def _gen_nop(r: random.Random) -> dict:
     if r.random() < 0.15:
         # a pattern with a group first, then one with a backreference, and statements for both
-        pats = [r.choice([r"^(CALL|PUT)\b", r"^(RE)?GRANT\b"]), r"COPY (\w+) TO \1_BAK"] + r.sample(PATTERNS, r.randint(0, 2))
-        return {"kind": "nop", "patterns": pats, "stmts": ["COPY T1 TO T1_BAK", r.choice(NOP_STMTS), "copy audit to audit_bak", "CALL p()"], "qmark": False}
+        pats = [r.choice([r"^(CALL|PUT)\b", r"^(RE)?GRANT\b"]), r"COMMENT ON TABLE (\w+) IS '\1_BAK'"] + r.sample(PATTERNS, r.randint(0, 2))
+        return {"kind": "nop", "patterns": pats, "stmts": ["COMMENT ON TABLE T1 IS 'T1_BAK'", r.choice(NOP_STMTS), "COMMENT ON TABLE T1 IS 'T2_BAK'", "comment on table audit is 'audit_BAK'", "CALL p()"], "qmark": False}
     pats = r.sample(PATTERNS, r.randint(1, 4))
     return {"kind": "nop", "patterns": pats, "stmts": [r.choice(NOP_STMTS) for _ in range(r.randint(1, 4))], "qmark": r.random() < 0.3}
 
